@@ -31,6 +31,10 @@ def op_ops(op):
         return [{"k": "exec", "sql": "UPDATE w SET a = a + 1 WHERE id BETWEEN %d AND %d" % (op["lo"], op["hi"])}]
     if k == "reopen":
         return [{"k": "reopen"}]
+    if k == "create_index":
+        return [{"k": "exec", "sql": "CREATE INDEX w_%s ON w (%s)" % (op["col"], op["col"])}]
+    if k == "drop_index":
+        return [{"k": "exec", "sql": "DROP INDEX w_%s" % op["col"]}]
     raise ValueError(k)
 
 
@@ -41,6 +45,7 @@ def probe_ops(n):
     ops += [{"k": "query", "sql": "SELECT COUNT(*) FROM w WHERE a = %d" % v} for v in (0, 3, 11)]
     ops += [{"k": "query", "sql": "SELECT COUNT(*) FROM w WHERE id BETWEEN %d AND %d" % r} for r in ((60, 70), (120, 260), (n - 5, n))]
     ops += [{"k": "query", "sql": "SELECT id FROM w WHERE a = 3"}]
+    ops += [{"k": "query", "sql": "SELECT COUNT(*) FROM w WHERE pad = '%s'" % PAD}, {"k": "query", "sql": "SELECT id FROM w WHERE pad = '%s'" % PAD}]
     return ops, ids
 
 
@@ -50,13 +55,15 @@ def describe(hist):
         op = h["op"]
         out.append({"insert_run": lambda: "insert %d..%d %s" % (op["lo"], op["lo"] + op["len"] - 1, op["ord"]),
                     "delete_range": lambda: "delete id in %d..%d" % (op["lo"], op["hi"]), "delete_eq": lambda: "delete a=%d" % op["v"],
-                    "update_range": lambda: "a+=1 for id in %d..%d" % (op["lo"], op["hi"]), "reopen": lambda: "reopen"}.get(op["k"], lambda: op["k"])())
+                    "update_range": lambda: "a+=1 for id in %d..%d" % (op["lo"], op["hi"]), "reopen": lambda: "reopen",
+                    "create_index": lambda: "CREATE INDEX on " + op["col"], "drop_index": lambda: "DROP INDEX on " + op["col"]}.get(op["k"], lambda: op["k"])())
     return "; ".join(out)
 
 
-def walks(chk, num, depth, n=400):
-    cfg = vlib.scratch() + "/GenWide.cfg"
-    open(cfg, "w").write(open(os.path.join(vlib.SPEC, "Gen_WideTable.cfg")).read().replace("MaxOps = 12", "MaxOps = %d" % depth).replace("N = 400", "N = %d" % n))
+def walks(chk, num, depth, n=400, ddl=False):
+    cfg = vlib.scratch() + "/GenWide%d.cfg" % ddl
+    open(cfg, "w").write(open(os.path.join(vlib.SPEC, "Gen_WideTable.cfg")).read().replace("MaxOps = 12", "MaxOps = %d" % depth).replace("N = 400", "N = %d" % n)
+                         .replace("WithDDL = FALSE", "WithDDL = %s" % ("TRUE" if ddl else "FALSE")))
     sim = vlib.run_tlc("MC_WideTable.tla", cfg, workers=1, timeout=1500, simulate="num=%d" % num, seed=chk.seed, extra=["-depth", str(depth)])
     em = vlib.parse_emitted(sim["out"])
     hists, prev = [], None
@@ -71,10 +78,11 @@ def walks(chk, num, depth, n=400):
     return hists
 
 
-def execute(hists, n=400):
+def execute(hists, n=400, ddl=False):
+    """ddl: the behaviours come from WithDDL = TRUE, where the table starts without secondary indexes"""
     rend, meta = [], {}
     for cid, h in enumerate(hists):
-        ops = [{"k": "exec", "sql": s} for s in SETUP]
+        ops = [{"k": "exec", "sql": s} for s in (SETUP[:1] if ddl else SETUP)]
         marks = []
         for st in h:
             o = op_ops(st["op"])
@@ -145,9 +153,31 @@ def judge(hists, outs, n=400):
             want = sorted(x for x, v in scan.items() if v == 3)
             if sorted(r[0] for r in pr[j]["rows"]) != want:
                 probs.append((h[:si + 1], "index", {"what": "secondary_eq_rows", "scan_n": len(want), "observed_n": len(pr[j]["rows"])})); bad = True
+            j += 1
+            if pr[j]["rows"] != [[len(scan)]]:
+                probs.append((h[:si + 1], "index", {"what": "pad_eq_count", "scan": len(scan), "observed": pr[j]["rows"]})); bad = True
+            j += 1
+            if sorted(r[0] for r in pr[j]["rows"]) != sorted(scan):
+                probs.append((h[:si + 1], "index", {"what": "pad_eq_rows", "scan_n": len(scan), "observed_n": len(pr[j]["rows"])})); bad = True
             if not bad:
                 stats["ok"] += 1
             if not model_scan_ok or got_n != st["n"]:
                 stats["abandoned"] += len(h) - si - 1
                 break
     return probs, stats
+
+
+def replay(chk, rep, kind, prefix="wide"):
+    """bin/check CNN --replay: re-run one recorded WideTable behaviour and classify what shows again"""
+    h, ddl = rep["wide_hist"], bool(rep.get("wide_ddl"))
+    n = 700 if ddl else 400
+    vlib.build_harness()
+    probs, st = judge([h], execute([h], n=n, ddl=ddl), n=n)
+    print("replayed:", describe(h))
+    for hp, k, d in probs:
+        print("  %s after step %d: %s" % (k, len(hp), json.dumps(d)[:300]))
+        if k == kind:
+            chk.classify("%s:%s:%s" % (prefix, d["what"], hp[-1]["op"]["k"]), {"behaviour": describe(hp), "wide_hist": hp, "wide_ddl": ddl, "detail": d})
+    chk.cov = {"evaluations": st["steps"], "distinct_nontrivial": max(2, st["steps"]), "rule": "replay of one recorded behaviour", "samples": [describe(h)],
+               "states": 1, "transitions": len(h), "traces_validated_against_impl": 1}
+    return chk.finish()
